@@ -59,12 +59,19 @@ PROPS = {
                      "default descriptor caching = the program never calls Hcache(.., FALSE): checked on the implementation at the start of every session (T crash sopen), not assumed"],
     ),
     "C03": dict(
-        lean_props=["H4.Props.C03", "H4.Props.C03Fn", "H4.Props.C03Fn2"],
+        lean_props=["H4.Props.C03", "H4.Props.C03Fn", "H4.Props.C03Fn2", "H4.Props.C03Pieces"],
         engines=[
             E("sd", "e_sd.c", model="sd", quick=dict(cases=1500), thorough=dict(cases=30000, seeds=8, chunk=300)),
+            # kind E of e_sd.c: LARGE data sets (1 - 4 MB) built around the internal piece / buffer / block sizes of the data path (MAX_SIZE fill
+            # piece of hdf_xdr_NCvdata, linked-block sizes of record variables, conversion buffers under refused allocations): first write in
+            # the middle, lead / trail / run one element below, at, above m * size; every number type in every 10 consecutive cases
+            E("sd_big", "e_sd.c", model="sd", quick=dict(cases=80, args=["big"], chunk=5), thorough=dict(cases=4000, seeds=4, args=["big"], chunk=50)),
         ],
-        trusted_base=["DFKconvert is exercised but not modelled here (C06)", "non-HDF netCDF/CDF paths of the same functions are out of scope"],
-        assumptions=["fixed-size variables in the placement tie (record variables are covered by the implementation oracle only)"],
+        trusted_base=["DFKconvert is exercised but not modelled here (C06)",
+                      "netCDF-classic files (the buffered XDR stream of hdf_xdr.c) are covered by the implementation oracle of engine sd_big only (hand-written CDF-1 files, file image compared); CDF files are out of scope",
+                      "engine sd / sd_big compile the text of putget.c into the harness with Hwrite, DFKconvert and calloc renamed to logging / refusing wrappers (the rest of the library is the static build)"],
+        assumptions=["fixed-size variables in the placement tie and in the first-write tie `fw` (record variables are covered by the implementation oracle only)",
+                     "no refused allocation in the model: the halving loops of hdf_xdr_NCvdata are exercised by engine sd_big under implementation oracles, `fw` lines are emitted only when every allocation was granted"],
     ),
     "C04": dict(
         lean_props=["H4.Props.C04Chunk", "H4.Props.C04MCache", "H4.Props.C04Fn"],
